@@ -2,6 +2,7 @@ package sim
 
 import (
 	"fmt"
+	"html"
 	"regexp"
 	"sort"
 	"strconv"
@@ -116,20 +117,31 @@ func (c *Checked) checkDot(i int, op Op, res *OpResult) {
 			c.viol(i, "dot-empty-cluster", fmt.Sprintf("cluster %s has no nodes", k.Name), "C19")
 			continue
 		}
-		first := g.Nodes[k.Nodes[0]]
-		lab := dotUnquote(first.Attrs["label"])
-		m := catLabel.FindStringSubmatch(lab)
-		if m == nil {
+		// the constructor's own node is the one labelled with the declared
+		// function's name, wherever it stands among the cluster's statements
+		// (the order of statements means nothing in DOT)
+		ctorAt := -1
+		var m []string
+		for pos, ni := range k.Nodes {
+			if mm := catLabel.FindStringSubmatch(dotUnquote(g.Nodes[ni].Attrs["label"])); mm != nil && !strings.HasPrefix(g.Nodes[ni].Attrs["label"], "<") {
+				ctorAt, m = pos, mm
+				break
+			}
+		}
+		if ctorAt < 0 {
 			continue // not a catalogue function (e.g. from the malformed grammar)
 		}
+		first := g.Nodes[k.Nodes[ctorAt]]
 		cat, _ := strconv.Atoi(m[1])
 		if _, dup := byCat[cat]; dup {
 			c.viol(i, "dot-duplicate-cluster", fmt.Sprintf("two clusters for constructor Cat%d", cat), "C19")
 			continue
 		}
 		x := &dotCl{idx: ci, label: first.ID, color: k.Attrs["color"]}
-		for _, ni := range k.Nodes[1:] {
-			x.nodes = append(x.nodes, g.Nodes[ni])
+		for pos, ni := range k.Nodes {
+			if pos != ctorAt {
+				x.nodes = append(x.nodes, g.Nodes[ni])
+			}
 		}
 		byCat[cat] = x
 	}
@@ -176,13 +188,14 @@ func (c *Checked) checkDot(i int, op Op, res *OpResult) {
 			c.viol(i, "dot-result-nodes", fmt.Sprintf("cluster of Cat%d holds %d result nodes, the constructor declares %d results", cat, len(x.nodes), len(keys)), "C19")
 			continue
 		}
+		rn := resultNodes(x.nodes, keys)
 		for j, k := range keys {
 			if idsOfKey[k] == nil {
 				idsOfKey[k] = map[string]bool{}
 			}
-			idsOfKey[k][x.nodes[j].ID] = true
+			idsOfKey[k][rn[j].ID] = true
 			if k.IsGroup() {
-				members[k] = append(members[k], x.nodes[j].ID)
+				members[k] = append(members[k], rn[j].ID)
 			}
 		}
 		if x.color != "" {
@@ -214,6 +227,14 @@ func (c *Checked) checkDot(i int, op Op, res *OpResult) {
 		if len(es) != len(singles)+len(groups) {
 			c.viol(i, "dot-edge-count", fmt.Sprintf("Cat%d declares %d dependencies, the graph has %d edges from it", cat, len(singles)+len(groups), len(es)), "C19")
 			continue
+		}
+		// The order of edge statements means nothing in DOT: if the edges can
+		// be assigned to the declared dependencies at all (dashed iff
+		// optional, a provided key's edge ends at one of its nodes, a group's
+		// edge ends at a group node), they are checked in that assignment;
+		// otherwise in the order they were written, which names what is wrong.
+		if perm := assignEdges(es, singles, groups, idsOfKey, diamondsOf(g), inAnyCluster(g)); perm != nil {
+			es = perm
 		}
 		for j, p := range singles {
 			e := es[j]
@@ -513,9 +534,10 @@ func (c *Checked) checkDotErrorGroups(i int, op Op, g *DotGraph, byCat map[int]*
 			continue
 		}
 		memberID[n.Fn] = map[Key]string{}
+		rn := resultNodes(x.nodes, keys)
 		for j, k := range keys {
 			if k.IsGroup() {
-				memberID[n.Fn][k] = x.nodes[j].ID
+				memberID[n.Fn][k] = rn[j].ID
 			}
 		}
 	}
@@ -566,4 +588,174 @@ func (c *Checked) checkDotErrorGroups(i int, op Op, g *DotGraph, byCat map[int]*
 			c.viol(i, "dot-error-group-member", fmt.Sprintf("f%d failed while the Invoke collected %s, of which it is a member; no group node is linked to that member", fc.Fn, p.Key), "C19")
 		}
 	}
+}
+
+// resultNodes assigns the result nodes of a cluster to the declared result keys
+// (one node per key, in the order of keys). Nodes are recognised by what their
+// label says -- the type, and the name or group if any -- so that the order of
+// statements inside the cluster does not matter; if the labels cannot be read
+// that way (another spelling of labels), the i-th node is taken for the i-th key.
+func resultNodes(nodes []DotNode, keys []Key) []DotNode {
+	if len(nodes) != len(keys) {
+		return nil
+	}
+	type lab struct{ typ, detail string }
+	labs := make([]lab, len(nodes))
+	readable := true
+	for i, n := range nodes {
+		l := n.Attrs["label"]
+		if !strings.HasPrefix(l, "<") || !strings.HasSuffix(l, ">") {
+			readable = false
+			break
+		}
+		l = l[1 : len(l)-1]
+		typ, detail := l, ""
+		if j := strings.Index(l, "<BR"); j >= 0 {
+			typ, detail = l[:j], stripTags(l[j:])
+		}
+		labs[i] = lab{html.UnescapeString(typ), strings.TrimSpace(html.UnescapeString(detail))}
+	}
+	out := make([]DotNode, len(keys))
+	if readable {
+		used := make([]bool, len(nodes))
+		ok := true
+		for ki, k := range keys {
+			want := k.Name
+			if k.IsGroup() {
+				want = k.Group
+			}
+			found := -1
+			for ni := range nodes {
+				if used[ni] || labs[ni].typ != TypeName(k.T) {
+					continue
+				}
+				if (want == "" && labs[ni].detail == "") || (want != "" && strings.HasSuffix(labs[ni].detail, want) && strings.Contains(strings.ToLower(labs[ni].detail), map[bool]string{true: "group", false: "name"}[k.IsGroup()])) {
+					found = ni
+					break
+				}
+			}
+			if found < 0 {
+				ok = false
+				break
+			}
+			used[found] = true
+			out[ki] = nodes[found]
+		}
+		if ok {
+			return out
+		}
+	}
+	copy(out, nodes)
+	return out
+}
+
+func stripTags(s string) string {
+	var b strings.Builder
+	depth := 0
+	for _, r := range s {
+		switch {
+		case r == '<':
+			depth++
+		case r == '>':
+			if depth > 0 {
+				depth--
+			}
+		case depth == 0:
+			b.WriteRune(r)
+		}
+	}
+	return b.String()
+}
+
+func diamondsOf(g *DotGraph) map[string]DotNode {
+	out := map[string]DotNode{}
+	for _, n := range g.Nodes {
+		if n.Cluster < 0 && n.Attrs["shape"] == "diamond" {
+			out[n.ID] = n
+		}
+	}
+	return out
+}
+
+func inAnyCluster(g *DotGraph) map[string]bool {
+	out := map[string]bool{}
+	for _, n := range g.Nodes {
+		if n.Cluster >= 0 {
+			out[n.ID] = true
+		}
+	}
+	return out
+}
+
+// assignEdges finds an assignment of a constructor's edges to its declared
+// dependencies (singles first, then groups, as the positional check expects)
+// under the constraints the positional check enforces; nil if there is none.
+// Among several compatible edges the one whose target id mentions the
+// dependency's type and name is preferred, so that unprovided dependencies of
+// different keys are not swapped.
+func assignEdges(es []DotEdge, singles, groups []LeafParam, idsOfKey map[Key]map[string]bool, diamonds map[string]DotNode, clustered map[string]bool) []DotEdge {
+	params := append(append([]LeafParam(nil), singles...), groups...)
+	compat := func(p LeafParam, e DotEdge) int {
+		_, isDiamond := diamonds[e.To]
+		want := p.Key.Name
+		if p.Key.IsGroup() {
+			want = p.Key.Group
+		}
+		score := 1
+		if strings.Contains(e.To, TypeName(p.Key.T)) {
+			score += 2
+		}
+		if want != "" && strings.Contains(e.To, want) {
+			score++
+		}
+		if p.Key.IsGroup() {
+			if !isDiamond {
+				return 0
+			}
+			return score
+		}
+		if isDiamond || strings.Contains(e.Attrs["style"], "dashed") != p.Opt {
+			return 0
+		}
+		if ids := idsOfKey[p.Key]; len(ids) > 0 {
+			if !ids[e.To] {
+				return 0
+			}
+		} else if clustered[e.To] {
+			return 0
+		}
+		return score
+	}
+	used := make([]bool, len(es))
+	out := make([]DotEdge, len(params))
+	var rec func(k int) bool
+	rec = func(k int) bool {
+		if k == len(params) {
+			return true
+		}
+		// candidates by descending score
+		type cand struct{ i, s int }
+		var cs []cand
+		for i, e := range es {
+			if !used[i] {
+				if s := compat(params[k], e); s > 0 {
+					cs = append(cs, cand{i, s})
+				}
+			}
+		}
+		sort.SliceStable(cs, func(a, b int) bool { return cs[a].s > cs[b].s })
+		for _, c := range cs {
+			used[c.i] = true
+			out[k] = es[c.i]
+			if rec(k + 1) {
+				return true
+			}
+			used[c.i] = false
+		}
+		return false
+	}
+	if len(es) != len(params) || !rec(0) {
+		return nil
+	}
+	return out
 }
